@@ -63,6 +63,20 @@ Section Thm.
     destruct Hq as (Hr & Hrun & _ & Hc). repeat split; assumption.
   Qed.
 
+  Theorem feed_munch_inv chunks fuel :
+    (length (concat chunks) + 3 <= fuel)%nat ->
+    exists s',
+      feed fuel (init q0) chunks = Ok (fst (munch (concat chunks)), s') /\ quiescent s'.
+  Proof.
+    intros Hf.
+    destruct (chunking Q Item q0 delta accepting terminal decode_item chunks (init q0) fuel eq_refl)
+      as (ts & s' & HF & HD); [cbn; lia|].
+    destruct (decode_into_munch (init q0) (concat chunks) fuel (Inv_init _ _ _ _ _ _ _)) as (s2 & HD2 & Hb & Hq);
+      [cbn; lia|].
+    cbn [sbuf sres init app] in HD2, Hb. rewrite HD in HD2. inversion HD2; subst.
+    exists s2. split; [exact HF|exact Hq].
+  Qed.
+
   (* the state after a run is a function of the pending bytes alone *)
   Theorem quiescent_determined (s1 s2 : st) :
     quiescent s1 -> quiescent s2 -> sbuf s1 = sbuf s2 -> s1 = s2.
